@@ -186,6 +186,60 @@ Fixpoint run_ops (s : st) (ops : list op) : st * list out :=
               let '(s2, us) := run_ops s1 t in (s2, u :: us)
   end.
 
+(* ------------------------------------------------------------------ --estimate-return *)
+(* With mcount_estimate_return no return address is hijacked and no exit hook runs for -pg/PLT frames:
+   __mcount_entry / __plthook_entry only push a frame, after mcount_rstack_inject_return() has closed
+   (with an estimated exit time) every frame whose slot is not above the new one's.  Stack addresses grow
+   downwards: a larger slot number is a LOWER address; `parent_loc > frame_pointer` is `floc f < l`.
+   __cygprof_entry passes the frame pointer ~0UL. *)
+Fixpoint pop_while (l : nat) (fs : list frame) : list frame :=
+  match fs with
+  | [] => []
+  | f :: t => if Nat.eqb (floc f) DUMMY then fs
+              else if Nat.ltb (floc f) l then fs
+              else pop_while l t
+  end.
+Fixpoint pop_until_dummy (fs : list frame) : list frame :=
+  match fs with
+  | [] => []
+  | f :: t => if Nat.eqb (floc f) DUMMY then fs else pop_until_dummy t
+  end.
+Definition inject_return (fp : option nat) (fs : list frame) : list frame :=
+  match fs with
+  | [] => []
+  | f :: t =>
+      match fp with
+      | Some l => if (kind_eqb (fkind f) KP && Nat.ltb (floc f) l)%bool then t   (* PLT sibling in the same module *)
+                  else pop_while l fs
+      | None => pop_until_dummy fs
+      end
+  end.
+
+Definition enter_est (k : kind) (l : nat) (s : st) : st :=
+  mkSt (mem s) (mkF l (mem s l) k false :: inject_return (Some l) (rs s)).
+Definition enter_cyg_est (parent : nat) (s : st) : st :=
+  mkSt (mem s) (mkF DUMMY (Real parent) KC false :: inject_return None (rs s)).
+
+Definition run_op_est (s : st) (o : op) : st * out :=
+  match o with
+  | OPush l a => (mkSt (upd (mem s) l (Real a)) (rs s), UNone)
+  | OEnter HNone _ => (s, UNone)
+  | OEnter (HM _) l => (enter_est KM l s, UNone)        (* the `recover` trigger is ignored in this mode *)
+  | OEnter HP l => (enter_est KP l s, UNone)
+  | OEnter HC l => (enter_cyg_est l s, UNone)
+  | OCygExit => (exit_cyg s, UNone)
+  | ORet l | ORetStop l =>
+      (* the function returns through whatever its slot holds: nothing ever put a trampoline there *)
+      (s, URet 0 (mem s l))
+  end.
+
+Fixpoint run_ops_est (s : st) (ops : list op) : st * list out :=
+  match ops with
+  | [] => (s, [])
+  | o :: t => let '(s1, u) := run_op_est s o in
+              let '(s2, us) := run_ops_est s1 t in (s2, u :: us)
+  end.
+
 (* ------------------------------------------------------------------ programs as call trees *)
 (* One activation: its return address, the hook its entry met (HNone: not instrumented, filtered out,
    or beyond the depth limit), the calls it makes, and the functions it then tail-calls (they run
